@@ -209,10 +209,10 @@ def run(ctx):
     import random
     random.Random(5).shuffle(codes)               # balance the chunks; the set of cases is unchanged
     jobs = [{"kind": "grid", "codes": ch} for ch in fnref.chunks(codes, ctx.pick(16, 128))]
-    nrand = ctx.pick(640, 6000)
+    nrand = ctx.pick(640, 24000)
     per = ctx.pick(80, 500)
     jobs += [{"kind": "random", "count": per} for _ in range(nrand // per)]
-    ctx.shard(jobs, timeout=ctx.pick(120, 340))
+    ctx.shard(jobs, timeout=ctx.pick(120, 1500))
     ctx.exhaustive = True
     ctx.extra["exhaustive_scope"] = ("4x4 grid, against all 16 grid points: " + (
         "all 3-vertex sequences, all 4-vertex polygons (one start vertex, both orientations), 5-vertex ones sampled"
